@@ -96,7 +96,7 @@ def mc_dd_part(chk, w, tier):
     insts = insts[: (8 if not thorough else 40)]
     f = os.path.join(w, "mc_dd_insts.json")
     json.dump(insts, open(f, "w"))
-    r = mc("DD", "MC_DD.cfg", workers=8, env={"INSTS": f}, timeout=3600, require_actions=False)
+    r = mc("DD", "MC_DD.cfg", workers=8, env={"INSTS": f}, timeout=3600, require_actions=False, coverage=thorough)
     chk.add_mc("MC_DD.cfg", r, constants=f"Widths = {{1,2,3}} Cuts = {{lel, fc}}; {len(insts)} generated instances (n <= 4, <= 4 base states / capacity <= 9), every reachable exact root, 3 types, 4 incumbents")
 
 
@@ -160,7 +160,7 @@ def mc_ddpooled_part(chk, w, tier):
     insts = insts[: (12 if not thorough else 60)]
     f = os.path.join(w, "mc_pooled_insts.json")
     json.dump(insts, open(f, "w"))
-    r = mc("DDPooled", "MC_DDPooled.cfg", workers=8, env={"INSTS": f}, timeout=3600, require_actions=False)
+    r = mc("DDPooled", "MC_DDPooled.cfg", workers=8, env={"INSTS": f}, timeout=3600, require_actions=False, coverage=thorough)
     chk.add_mc("MC_DDPooled.cfg", r, constants=f"Widths = {{1,2}}; {len(insts)} depth-free long-arc instances (n <= 5, <= 3 base states); PContract (DDContract on the drained cut-set), C13_Width, C12_Arcs")
     if chk.pid == "C08":
         r2 = tlc("DDPooled", "MC_DDPooled_D5.cfg", env={"INSTS": f}, workers=4, timeout=1800)
